@@ -642,9 +642,30 @@ func crossCheck(all []*Obligation, fcOf map[*Obligation]*FnCtx, cfg SolverCfg) (
 	var notes []string
 	var wg sync.WaitGroup
 	sem := make(chan struct{}, 12)
+	// per-array frame obligations come in thousands for functions that call the API client (one per array the callee
+	// may write); beyond 300 of them only an evenly spaced sample is re-proved, and the evidence says so
+	isFrame := func(o *Obligation) bool { return o.Kind == "frame" || strings.Contains(o.Label, "/framed/") }
+	nFrame := 0
+	for _, o := range all {
+		if o.Verdict == "discharged" && !o.MustSat && isFrame(o) {
+			nFrame++
+		}
+	}
+	stride := 1
+	if nFrame > 300 {
+		stride = (nFrame + 299) / 300
+		notes = append(notes, fmt.Sprintf("frame obligations: every %d-th of %d cross-checked (sample), all others in full", stride, nFrame))
+	}
+	seenFrame := 0
 	for _, o := range all {
 		if o.Verdict != "discharged" || o.MustSat {
 			continue
+		}
+		if isFrame(o) {
+			seenFrame++
+			if seenFrame%stride != 0 {
+				continue
+			}
 		}
 		wg.Add(1)
 		sem <- struct{}{}
@@ -654,13 +675,29 @@ func crossCheck(all []*Obligation, fcOf map[*Obligation]*FnCtx, cfg SolverCfg) (
 			fc := fcOf[o]
 			file := filepath.Join(cfg.WorkDir, fmt.Sprintf("x_%x.smt2", hashStr(o.Name())))
 			txt := fc.queryText(o, false)
-			os.WriteFile(file, []byte(txt), 0o644)
 			second := solvers[2]
 			if strings.Contains(txt, "(lambda ") {
 				second = solvers[1]
 			}
-			out, _ := runSolver(contextBG(), second.bin, second.args, file, 30*time.Second)
-			v := firstVerdict(out)
+			v := ""
+			if o.NAsserts > 40 {
+				// the directed cone of influence first: much smaller, and an unsat answer from it is conclusive
+				fc.sliceMu.Lock()
+				stxt := fc.queryTextSliced(o, false, true)
+				fc.sliceMu.Unlock()
+				sfile := strings.TrimSuffix(file, ".smt2") + ".s.smt2"
+				os.WriteFile(sfile, []byte(stxt), 0o644)
+				sout, _ := runSolver(contextBG(), second.bin, second.args, sfile, 10*time.Second)
+				os.Remove(sfile)
+				if firstVerdict(sout) == "unsat" {
+					v = "unsat"
+				}
+			}
+			if v == "" {
+				os.WriteFile(file, []byte(txt), 0o644)
+				out, _ := runSolver(contextBG(), second.bin, second.args, file, 30*time.Second)
+				v = firstVerdict(out)
+			}
 			mu.Lock()
 			defer mu.Unlock()
 			switch v {
